@@ -333,14 +333,30 @@ def announcement_retires_holder(P, R, rule='C01.MPT.5'):
                 if is_var(l, st[1]) and r[1] == '==':
                     return 'S'       # nothing is stored under the id
         return st
-    _, at_exit, _, _ = h.forward('U', on_event, on_edge)
+    # the holder may already be settled when the handler is entered: the dispatch looked the id up and retired what it
+    # found before handing the line over (on every path to every call of the handler, counted afresh for each line read)
+    entry = 'U'
+    dsites = [s for s, hh, vs in disp if hh is h]
+    if dsites:
+        def rd_event(st, s):
+            if s.ev['k'] == 'call' and s.ev.get('callee') == 'evbuffer_readln':
+                return 'U'
+            if any(isinstance(x, dict) and x.get('k') == 'callref' and x.get('callee') == 'evbuffer_readln' for ex in rules.event_exprs(s.ev) for x in walk(ex)):
+                return 'U'
+            if s.ev['k'] == 'call' and s.ev.get('callee') == 'set_insert':
+                return st
+            return on_event(st, s)
+        rb, _, _, _ = rd.forward('U', rd_event, on_edge)
+        if all(rb.get(s.key) and rb[s.key] == {'S'} for s in dsites):
+            entry = 'S'
+    _, at_exit, _, _ = h.forward(entry, on_event, on_edge)
     looks = [s for s in h.calls('set_find') if s.ev['args'] and is_var(s.ev['args'][0], uar.TABLE)]
     ins = [s for s in h.calls('set_insert') if s.ev['args'] and is_var(s.ev['args'][0], uar.TABLE)]
     if not ins:
         raise AnalysisBroken('%s never inserts into the request table' % h.name)
     bad = sorted(str(x) for x in at_exit if x != 'S')
-    R.ob(rule, not bad, h, 'every path through %s settles the previous holder of the id: inserts (replacing it) or looks it up and retires it (%d insert(s), %d lookup(s)%s)' % (
-        h.name, len(ins), len(looks), ('; a path returns with the holder %s' % ('never looked for' if 'U' in bad else 'found and left in place')) if bad else ''),
+    R.ob(rule, not bad, h, 'every path through %s settles the previous holder of the id: inserts (replacing it) or looks it up and retires it%s (%d insert(s), %d lookup(s)%s)' % (
+        h.name, ' - the dispatch has done so before every call' if entry == 'S' else '', len(ins), len(looks), ('; a path returns with the holder %s' % ('never looked for' if 'U' in bad else 'found and left in place')) if bad else ''),
         key='holder-settled:%s' % h.name, nontrivial=True)
 
 
